@@ -720,6 +720,8 @@ func judge(c Case) []fail {
 		return judgeScan(c)
 	case "build":
 		return judgeBuild(c)
+	case "prochist":
+		return judgeProcHist(c)
 	}
 	engine.HarnessError("unknown part %q", c.Part)
 	return nil
@@ -727,6 +729,12 @@ func judge(c Case) []fail {
 
 func runParts() {
 	thorough := rep.Thorough()
+	// histories in one process, on a single processor: before anything runs in parallel
+	if thorough {
+		rep.NonTrivial(runProcHist(4))
+	} else {
+		rep.NonTrivial(runProcHist(3))
+	}
 	var encCases, decCases, scanCases int64
 	maxTriple := 64 // alphabets up to this size get the full triple history in thorough
 	// triple histories run on the first two source kinds (bytereader, plain); every source kind is
